@@ -10,7 +10,7 @@
    (patches/fix-C06-invalid-byte.patch, fix-C06-cardinality-tags.patch);
    the pinned behaviour is refuted in Refuted/C06_refuted.v. *)
 From Coq Require Import ZArith List Bool String.
-From Tally Require Import Base.Obs Gen.Params Model.Utf8 Proof.Utf8P Model.Sanitize Proof.SanitizeP
+From Tally Require Import Base.ObsCore Gen.Params Model.Utf8 Proof.Utf8P Model.Sanitize Proof.SanitizeP
   Model.SanScope Proof.SanScopeP Proof.ParamsOkSanitize.
 Import ListNotations.
 Open Scope Z_scope.
